@@ -220,3 +220,18 @@ Definition tt_op (o : top) (T : rtree) : res rtree :=
       | None => match entry_pos T i with Some _ => Panic 46 | None => out_of_range end
       end
   end.
+
+(* ------------------------------------------------------------------ operands built by RelationBuilder *)
+(* the operands as trees: what the machine builds for [compile o] *)
+Definition btop (o : aop) : option top :=
+  match o with
+  | APush e => Some (TPush (bentry_tree e))
+  | AInsert i e => Some (TInsert i (bentry_tree e))
+  | AReplace i e => Some (TReplace i (bentry_tree e))
+  | AEPush i r => Some (TEPush i (brel_tree r))
+  | AEReplace i j r => Some (TEReplace i j (brel_tree r))
+  | _ => None
+  end.
+(* the tree function of an operation whose operands the builder built *)
+Definition bt_op (o : aop) (T : rtree) : res rtree :=
+  match btop o with Some t => tt_op t T | None => t_op o T end.
